@@ -32,8 +32,8 @@ def strategy(tier):
 
     @st.composite
     def cases(draw):
-        spec = draw(gen.tree_specs(opts))
-        stream, _ = draw(gen.streams(spec, max_rows=60 if thorough else 30))
+        spec, focus = draw(gen.specs_and_focus(opts, 4))
+        stream, _ = draw(gen.streams(spec, max_rows=60 if thorough else 30, focus=focus))
         cuts = draw(gen.cuts(len(stream)))
         k = len(cuts) + 1
         perm = draw(st.permutations(list(range(k))))
